@@ -2,28 +2,29 @@
 (* Generator of side-by-side scenarios for C09: settings of the sound, the   *)
 (* decoder's packetisation and seek granularity, and a command history       *)
 (* without seeks.  The environment grammar only; the oracle is P_C09.        *)
+(* Settings are chosen field by field (small branching per step).            *)
 EXTENDS Integers, Sequences, FiniteSets, TLC, Json
 CONSTANTS MaxLen, D, MaxCmd
-VARIABLES cfg, hist, ncmd, chosen
+VARIABLES cfg, hist, ncmd, stage
 Rates == {0, 128, 256, 512}          \* playback rate x 256
-Init == /\ chosen = FALSE /\ cfg = [len |-> 0] /\ hist = <<>> /\ ncmd = 0
+Init == /\ stage = 0 /\ cfg = [len |-> 0] /\ hist = <<>> /\ ncmd = 0
 Choose ==
-  /\ ~chosen /\ chosen' = TRUE
-  /\ \E len \in 1..MaxLen, lo \in 0..MaxLen, hi \in 0..MaxLen, start \in 0..MaxLen, ls \in -1..MaxLen, le \in 0..MaxLen,
-        rate \in Rates, pk \in {1, 2, 3, 7}, early \in 0..2 :
-       /\ lo < hi /\ hi <= len /\ start < hi - lo
-       /\ (ls = -1 \/ (ls < le /\ le <= hi - lo /\ start < le))
-       /\ cfg' = [len |-> len, lo |-> lo, hi |-> hi, start |-> start, ls |-> ls, le |-> IF ls = -1 THEN -1 ELSE le,
-                  rate |-> rate, pk |-> pk, early |-> early]
-  /\ UNCHANGED <<hist, ncmd>>
+  /\ stage < 6 /\ stage' = stage + 1 /\ UNCHANGED <<hist, ncmd>>
+  /\ CASE stage = 0 -> \E len \in 1..MaxLen : cfg' = [len |-> len]
+       [] stage = 1 -> \E lo \in 0..(cfg.len - 1), hi \in 1..cfg.len : lo < hi /\ cfg' = cfg @@ [lo |-> lo, hi |-> hi]
+       [] stage = 2 -> \E ls \in -1..(cfg.hi - cfg.lo - 1) : cfg' = cfg @@ [ls |-> ls]
+       [] stage = 3 -> IF cfg.ls = -1 THEN cfg' = cfg @@ [le |-> -1]
+                       ELSE \E le \in (cfg.ls + 1)..(cfg.hi - cfg.lo) : cfg' = cfg @@ [le |-> le]
+       [] stage = 4 -> \E start \in 0..((IF cfg.ls = -1 THEN cfg.hi - cfg.lo ELSE cfg.le) - 1) : cfg' = cfg @@ [start |-> start]
+       [] stage = 5 -> \E rate \in Rates, pk \in {1, 2, 3, 7}, early \in 0..2 : cfg' = cfg @@ [rate |-> rate, pk |-> pk, early |-> early]
 Cmd ==
-  /\ chosen /\ ncmd < MaxCmd /\ ncmd' = ncmd + 1
+  /\ stage = 6 /\ ncmd < MaxCmd /\ ncmd' = ncmd + 1
   /\ \E c \in {"pause", "resume", "stop", "volume", "panning", "rate"}, d \in {0, 2}, v \in {0, 1, 2} :
        hist' = Append(hist, [act |-> "Cmd", c |-> c, d |-> d, v |-> v])
-  /\ UNCHANGED <<cfg, chosen>>
-Cb == chosen /\ hist' = Append(hist, [act |-> "Callback"]) /\ ncmd' = 0 /\ UNCHANGED <<cfg, chosen>>
+  /\ UNCHANGED <<cfg, stage>>
+Cb == stage = 6 /\ hist' = Append(hist, [act |-> "Callback"]) /\ ncmd' = 0 /\ UNCHANGED <<cfg, stage>>
 Next == Choose \/ Cmd \/ Cb
-Spec == Init /\ [][Next]_<<cfg, hist, ncmd, chosen>>
+Spec == Init /\ [][Next]_<<cfg, hist, ncmd, stage>>
 Bound == Len(hist) <= D
 Dump == Len(hist) = D => PrintT(<<"BEHAVIOUR", ToJson(<<cfg>> \o hist)>>)
 =============================================================================
